@@ -272,8 +272,12 @@ func (s *procSession) Process(ctx context.Context, recs []opencdc.Record) []sdk.
 		case "multi1":
 			out[0] = sdk.MultiRecord{recs[0].Clone()}
 		case "short":
+			// drop a pseudo-random, non-empty tail of the reply (at least one
+			// result stays): the first unresolved record may be followed by any
+			// number of further records
 			if len(out) > 1 {
-				out = out[:len(out)-1]
+				keep := 1 + int(H(s.st.Script.Seed, "short", len(out), recs[0].Position)%uint64(len(out)-1))
+				out = out[:keep]
 			}
 		}
 	}
